@@ -223,6 +223,121 @@ def job_gen_run(args):
     return r
 
 
+def job_all_orders(args):
+    """small scope, exhaustively: ALL completion orders of one small program (depth-first over the choice among the
+    outstanding services at every step, by re-execution), monitors on every run, model comparison on every run"""
+    seed, prop, cap = args
+    rng = random.Random(seed)
+    cfg = PROPS[prop]
+    gen = dict(cfg.get("gen", {}))
+    prog = None
+    for _ in range(30):
+        cand = progs.gen_program(rng, depth=2, ntasks=2, **gen)
+        nsvc = progs.count_kinds(cand).get("svc", 0)
+        if 3 <= nsvc <= 7:
+            prog = cand
+            break
+    if prog is None:
+        return {"seed": seed, "runs": 0, "viol": [], "disagreements": []}
+    text = progs.print_program(prog, indent=4)
+    base = {"prog": prog, "text": text, "ids": "test", "draw": False, "as_file": False, "mutate": False, "imm": [False], "imm_other": None,
+            "seed": rng.getrandbits(32), "hist": False, "max_ops": 30, "witness": False, "pick": "script", "gen_seed": seed}
+    stack = [[]]
+    runs = []
+    while stack and len(runs) < cap:
+        script = stack.pop()
+        case = copy.deepcopy(base)
+        case["script"] = script
+        r = job_run(case)
+        if not r.get("valid"):
+            break
+        br = r["case"].get("_branching", [])
+        taken = script + [0] * (len(br) - len(script))
+        for i in range(len(script), len(br)):
+            for a in range(1, br[i]):
+                stack.append(taken[:i] + [a])
+        runs.append(r)
+    viol = []
+    for r in runs:
+        for v in r["viol"]:
+            if v["prop"] == prop:
+                viol.append({"rule": v["rule"], "msg": v["msg"], "case": strip_case(r["case"])})
+                break
+        if viol:
+            break
+    disagreements = []
+    if runs and os.path.exists(leanbuild.MODEL_EXE):
+        try:
+            resps = run_model([sc.model_request(r["case"]) for r in runs])
+            for r, resp in zip(runs, resps):
+                d = compare(r, resp, cfg["proj"])
+                if d:
+                    disagreements.append({"detail": d, "case": strip_case(r["case"])})
+                    break
+        except Exception as ex:  # noqa: BLE001
+            disagreements.append({"detail": "model run failed: %s" % ex, "case": None})
+    return {"seed": seed, "runs": len(runs), "complete": not stack, "viol": viol[:1], "disagreements": disagreements[:1],
+            "services": progs.count_kinds(prog).get("svc", 0)}
+
+
+def job_detach_in_update(args):
+    """C17, directed: an observer detaches itself / an earlier / a later observer from inside update(): the detached one
+    receives nothing further (not even the notification in delivery), every other attached observer still receives
+    every notification (compared with a reference observer that is attached last and never touched)"""
+    import impl
+
+    seed, = args
+    rng = random.Random(seed)
+    signal.signal(signal.SIGALRM, _alarm)
+    signal.alarm(60)
+    try:
+        prog = progs.gen_program(rng, depth=2, ploops=False)
+        text = progs.print_program(prog, indent=4)
+        answers = sc.Answers(random.Random(seed + 1))
+        run = impl.Run(text, ids="test", answers=answers, imm=lambda k: k % 3 == 0)
+        if run.s is None or not run.valid:
+            return {"seed": seed, "skip": True}
+        for k in ("ts", "ss", "sf", "tf"):
+            run.register(k, 0)
+        for o in (0, 1, 2, 3):
+            run.attach(o)  # 3 = the reference observer
+        who, target, at = rng.randrange(3), rng.randrange(3), rng.randint(1, 6)
+        state = {"n": 0, "detached_at": None}
+        seq = {o: [] for o in (0, 1, 2, 3)}
+        problems = []
+
+        def hook(obs, ntype, data):
+            key = (str(ntype), data[0] if isinstance(data, tuple) else str(data))
+            if state["detached_at"] is not None and obs.idx == target:
+                problems.append("observer %d was detached (by observer %d, from inside update()) but received %r afterwards" % (target, who, key))
+            seq[obs.idx].append(key)
+            if obs.idx == who and state["detached_at"] is None:
+                state["n"] += 1
+                if state["n"] == at:
+                    state["detached_at"] = len(seq[3]) + (1 if who == 3 else 0)
+                    run.s.detach(run.observers[target])
+
+        run.update_hook = hook
+        c = run.start()
+        n = 0
+        while run.pending and n < 25 and not c.get("exc"):
+            c = run.complete(rng.choice(run.pending))
+            n += 1
+        if c.get("exc") and c["exc"] != "RecursionError":
+            problems.append("a call raised %s" % c["exc"])
+        for o in (0, 1, 2):
+            if o == target and state["detached_at"] is not None:
+                continue
+            if seq[o] != seq[3]:
+                problems.append("observer %d (attached all the time) received %d notifications, the reference observer %d; first difference at %d"
+                                % (o, len(seq[o]), len(seq[3]), next((i for i, (a, b) in enumerate(zip(seq[o], seq[3])) if a != b), min(len(seq[o]), len(seq[3])))))
+        return {"seed": seed, "text": text, "problems": problems[:2], "plan": [who, target, at], "detached": state["detached_at"] is not None}
+    except CaseTimeout:
+        return {"seed": seed, "skip": True}
+    finally:
+        signal.alarm(0)
+
+
 def job_observer_completion(args):
     """C08, directed: the execution engine learns about a started service from the LOG entry delivered to an attached
     observer and reports it finished from inside update(): the service has been announced, so the report is accepted
@@ -651,6 +766,35 @@ def _run(ctx, cfg, n_cases, pool, res):
                 if v["rule"] not in seen_rules:
                     seen_rules.add(v["rule"])
                     res["violations"].append({"rule": v["rule"], "msg": v["msg"], "replay_obj": _replay_obj(prop, r, v, {"variants": True})})
+    # small scope, all completion orders ---------------------------------------------------------------
+    ao = pool.map(job_all_orders, [(seed * 1000003 + i, prop, 60 if tier == "quick" else 400) for i in range(12 if tier == "quick" else 160)], chunksize=1)
+    ao_runs = sum(a["runs"] for a in ao)
+    ao_complete = sum(1 for a in ao if a.get("complete") and a["runs"])
+    for a in ao:
+        for v in a["viol"]:
+            if v["rule"] not in seen_rules:
+                seen_rules.add(v["rule"])
+                res["violations"].append({"rule": v["rule"], "msg": v["msg"] + "  (found by the enumeration of all completion orders)",
+                                          "replay_obj": {"property": prop, "family": "sched", "rule": v["rule"], "message": v["msg"], "case": v["case"],
+                                                         "how": "./check %s quick --replay <this file>" % prop}})
+        for d in a["disagreements"]:
+            if d["case"]:
+                disagreements.append(({"case": d["case"], "valid": True}, d["detail"]))
+    res["notes"].append("all completion orders: %d programs (%d enumerated completely), %d runs" % (len([a for a in ao if a["runs"]]), ao_complete, ao_runs))
+    # C17: detach from inside update() ---------------------------------------------------------------------
+    if prop == "C17":
+        ndet = 0
+        for r in pool.map(job_detach_in_update, [(seed * 11 + i,) for i in range(60 if tier == "quick" else 600)], chunksize=2):
+            if r.get("skip"):
+                continue
+            ndet += int(bool(r.get("detached")))
+            if r["problems"] and "detach_in_update" not in seen_rules:
+                seen_rules.add("detach_in_update")
+                res["violations"].append({"rule": "detach_in_update", "msg": r["problems"][0] + " (observer %d detaches observer %d at its update no. %d)" % tuple(r["plan"]),
+                                          "replay_obj": {"property": prop, "family": "sched", "rule": "detach_in_update", "message": r["problems"][0],
+                                                         "text": r["text"], "job_seed": r["seed"], "plan": r["plan"],
+                                                         "how": "re-run: tools/sched_family.job_detach_in_update((job_seed,))"}})
+        res["notes"].append("detach from inside observer.update(): %d runs in which the detach happened" % ndet)
     # C08: completion reported from inside an observer's update() ---------------------------------------
     if prop == "C08":
         nobs = 0
